@@ -6,7 +6,7 @@ from typing import Any, Optional
 from autobean_refactor import models
 from autobean_refactor.models import base
 
-from vf.gen import ledger as L, ops as OPS
+from vf.gen import ledger as L, ops as OPS, sweeps
 from vf.obs import core as O
 from vf.props import common
 from vf.run import Job, Result
@@ -252,4 +252,5 @@ def _build_edited(tier: str):
 
 def jobs(tier: str) -> list[Job]:
     return [Job('spacing', 'hyp', lambda: _build(tier), 2500 if tier == 'quick' else 80000),
-            Job('spacing-after-edits', 'hyp', lambda: _build_edited(tier), 2500 if tier == 'quick' else 80000)]
+            Job('spacing-after-edits', 'hyp', lambda: _build_edited(tier), 2500 if tier == 'quick' else 80000),
+            Job('insert-then-space', 'enum', sweeps.insert_then_space, exhaustive=True)]
